@@ -470,6 +470,73 @@ func checkChunkBounds(c *Ctx) {
 	}
 }
 
+// checkMessageDetached: when readMessagePayload returns a message, the chunk stream no longer refers to it
+// (otherwise the next type-0 header on that chunk stream is rejected as "inside an unfinished message").
+func checkMessageDetached(c *Ctx, rule string) {
+	P, R := c.P, c.R
+	fn := P.Func("rtmp", "(*Protocol).readMessagePayload")
+	if !R.Anchor(fn != nil, rule, "rtmp.(*Protocol).readMessagePayload") {
+		return
+	}
+	e := abs.NewEngine(P)
+	prep := rtmpPrep(e, P)
+	const pl, have, cs = "chunk.message.messageHeader.payloadLength", "len(chunk.message.Payload)", "v.input.opt.chunkSize"
+	for _, zero := range []bool{true, false} {
+		name := "non-empty-message"
+		if zero {
+			name = "zero-length-message"
+		}
+		res := e.Run(fn, func(p *abs.Path) []abs.Value {
+			prep(p)
+			if zero {
+				p.DeclareAtom(pl, 24, 0, 0)
+				p.BindAtom(pl, 0, 24)
+				p.DeclareAtom(have, 24, 0, 0)
+			} else {
+				p.DeclareAtom(pl, 24, 1, 1<<24-1)
+				p.DeclareAtom(have, 24, 0, 1<<24-1)
+				p.AssumeLin(abs.LAtom(pl).Sub(abs.LAtom(have)).Add(abs.LConst(-1)))
+			}
+			p.DeclareAtom(cs, 31, 1, 1<<31-1)
+			args := e.AutoArgs(p, fn)
+			p.Keep["chunk"] = args[1]
+			return args
+		})
+		var problems []string
+		returned := 0
+		for _, r := range res {
+			if r.Path.Abort != "" {
+				problems = append(problems, "undecided: "+r.Path.Abort)
+				continue
+			}
+			if len(r.Ret) != 2 {
+				continue
+			}
+			_, gotMsg := r.Ret[0].(*abs.Ptr)
+			left, ok := abs.Resolve(r.Path, r.Path.Keep["chunk"], "message")
+			if !ok {
+				problems = append(problems, "undecided: chunk.message not resolvable")
+				continue
+			}
+			_, cleared := left.(*abs.NilV)
+			if gotMsg {
+				returned++
+				if !cleared {
+					problems = append(problems, "a completed message is returned but the chunk stream still refers to it: the next message on this chunk stream is rejected (type-0 'inside an unfinished message') or overwrites the delivered one"+pathSuffix(r))
+				}
+			} else if cleared {
+				if _, isErr := r.Ret[1].(*abs.NilV); isErr {
+					problems = append(problems, "the partial message is dropped from the chunk stream although it is not complete"+pathSuffix(r))
+				}
+			}
+		}
+		if returned == 0 && len(problems) == 0 {
+			problems = append(problems, "no path returns the message")
+		}
+		report(R, rule, "rtmp|(*Protocol).readMessagePayload|detached|"+name, P.Pos(fn.Pos()), "a returned message is detached from its chunk stream; an unfinished one stays attached", "", dedup(problems), nil)
+	}
+}
+
 // minIdiom recognises x := a; if x > b { x = b } (any comparison spelling) and returns the paths of a and b.
 func minIdiom(v ssa.Value) (string, string, bool) {
 	phi, ok := v.(*ssa.Phi)
@@ -708,6 +775,7 @@ func runC02(c *Ctx) {
 	R.Require("C02.reject", 6)
 	R.Require("C02.field-unset", 5)
 	R.Require("C02.ts-additive", 1)
+	R.Require("C02.complete", 2)
 
 	// ---- C02.basic
 	l := newLayout(c, "C02.basic")
@@ -745,6 +813,9 @@ func runC02(c *Ctx) {
 
 	// ---- C02.inherit / C02.reject / C02.ts-additive
 	headerDecodeChecks(c, "C02.inherit", false)
+
+	// ---- C02.complete: a completed message (also a zero-length one) is handed out once and detached from its chunk stream
+	checkMessageDetached(c, "C02.complete")
 
 	// ---- C02.field-unset
 	cst := P.NamedType("rtmp", "chunkStream")
